@@ -35,7 +35,7 @@ func init() {
 		ID:    "C06",
 		Level: "exploration",
 		Rule: "seeded target models (2..4 services and the networks/volumes/secrets/configs they use) partitioned into a main file and 1..3 included files (nesting depth <= 3; sub-directories, the parent's directory, a sibling directory; short and long include syntax, path as string or list; with/without project_directory; .env in the included project directory, declared env_file, or none); " +
-			"included files use variables defined only in the parent environment, only in their own env file, in both (parent must win, also when the parent's value is empty), in an outer and an inner included env file (outer must win), or nowhere (default operators), and relative paths; the project is compared with the one loaded from the pasted single document. " +
+			"included files use variables defined only in the parent environment, only in their own env file, in both (parent must win, also when the parent's value is empty), in an outer and an inner included env file (outer must win), or nowhere (default operators), relative paths, and secrets/configs sourced from a variable that the parent environment or only the included project's env file defines; the project is compared with the one loaded from the pasted single document. " +
 			"Negative cases: a resource of each of the five kinds redefined with one attribute changed (in the main file or in a sibling include) must fail, include cycles of length 1..3 must fail; positive: the same file included through two routes must load and equal the pasted model. " +
 			"A positive case is non-trivial when at least one included file holds a resource that uses a variable or a relative path and both sides load; distinct = distinct distributed inputs.",
 		Assumptions: []string{
